@@ -71,6 +71,12 @@ public:
 
   double doStep();
 
+  /**
+   * @brief Run the line search; if it ends (evaluation budget) before a step
+   * was accepted, fall back to the starting point instead of reporting a worse one.
+   */
+  double optimize();
+
   const FirstOrderDerivable& firstOrderDerivableFunction() const
   {
     if (function_)
